@@ -86,6 +86,9 @@ def build_roots():
             add('r_mft_%s%d' % (L, n), 'pub fn r_mft_%s%d(a: Vec3<f32>, b: Vec3<f32>) -> (%s%d<f32>, %s%d<f32>) { (%s%d::rotation_from_to_3d(a, b), %s%d::from(Quaternion::<f32>::rotation_from_to_3d(a, b))) }' % (L, n, L, n, L, n, L, n, L, n), kind='mft', n=n, l=L)
     add('r_scal', 'pub fn r_scal(q: %s, p: %s, s: f32) -> (%s, %s, %s, %s, %s, f32, f32, f32, %s) { (q * s, q / s, q + p, q - p, -q, q.dot(p), q.magnitude_squared(), q.magnitude(), q.normalized()) }' % (Q, Q, Q, Q, Q, Q, Q, Q), kind='scal')
     add('r_conv', 'pub fn r_conv(q: %s, v: Vec4<f32>, s: f32, u: Vec3<f32>) -> (%s, %s, (f32, Vec3<f32>), Vec4<f32>, %s, Vec3<f32>, %s, Vec4<f32>, Vec3<f32>) { (Quaternion::from_xyzw(v.x, v.y, v.z, v.w), Quaternion::from_scalar_and_vec3((s, u)), q.into_scalar_and_vec3(), q.into_vec4(), Quaternion::from_vec4(v), q.into_vec3(), Quaternion::from(v), Vec4::from(q), Vec3::from(q)) }' % (Q, Q, Q, Q, Q), kind='conv')
+    # ring-only forms, also analysed with i32 elements (integer twin pass): over the integers `/` truncates, q/s is not q*(1/s)
+    add('r_iscal', 'pub fn r_iscal(q: %s, p: %s, s: f32) -> (%s, %s, %s, %s, %s, f32) { (q * s, q / s, q + p, q - p, -q, q.dot(p)) }' % (Q, Q, Q, Q, Q, Q, Q), kind='iscal')
+    add('r_iinv', 'pub fn r_iinv(q: %s) -> %s { q.inverse() }' % (Q, Q), kind='iinv')
     add('r_ft', 'pub fn r_ft(a: Vec3<f32>, b: Vec3<f32>) -> %s { Quaternion::<f32>::rotation_from_to_3d(a, b) }' % Q, kind='ft')
     add('r_ftapply', 'pub fn r_ftapply(a: Vec3<f32>, b: Vec3<f32>) -> Vec3<f32> { Quaternion::<f32>::rotation_from_to_3d(a, b) * a }', kind='ftapply')
     add('r_aa', 'pub fn r_aa(q: %s) -> (f32, Vec3<f32>) { q.into_angle_axis() }' % Q, kind='aa')
@@ -107,6 +110,9 @@ def run(ctx):
                        'antiparallel outcomes map from to -from; Mat3/Mat4::rotation_from_to_3d equal the matrix of that quaternion; into_angle_axis has the shape (2 acos w, v / sqrt(1-w^2)).')
     ctx.assumptions = ['f32 operations read as exact field operations; sqrt(P)^2 = P', 'unit quaternions are parametrised as p/|p|']
     roots, meta = build_roots()
+    INT_KINDS = ('mul', 'assoc', 'neutral', 'consts', 'conjmul', 'conj', 'iscal', 'iinv')   # magnitude_squared needs T: Real
+    if ctx.elem == 'i32': roots = [r for r in roots if meta[r.name]['kind'] in INT_KINDS]
+    div = (lambda x, y: fn('idiv', x, y)) if ctx.elem == 'i32' else (lambda x, y: x / y)
     sc = ctx.scan(roots, QUICK_FEATURES)
     if sc.compile_error: return
     done = 0
@@ -187,6 +193,17 @@ def run(ctx):
             ctx.same(key + '/magnitude_squared', ms, norm2(p0), 'alg=: magnitude_squared', w)
             ctx.same(key + '/magnitude', mg, sqrt(norm2(p0)), 'alg=: magnitude', w)
             vec_eq(ctx, key + '/normalized', nz, [x / sqrt(norm2(p0)) for x in p0], 'alg=: normalized = q/|q|', w)
+        elif k == 'iscal':
+            qs, qd, qa, qm, qn, dt = p.ret
+            s = sym('a2')
+            vec_eq(ctx, key + '/mul-scalar', qs, [x * s for x in p0], 'alg=: q*s per component', w)
+            vec_eq(ctx, key + '/div-scalar', qd, [div(x, s) for x in p0], 'alg=: q/s is the scalar division of each component (truncating for integers: not a multiplication by 1/s)', w)
+            vec_eq(ctx, key + '/add', qa, [x + y for x, y in zip(p0, q1)], 'alg=: + per component', w)
+            vec_eq(ctx, key + '/sub', qm, [x - y for x, y in zip(p0, q1)], 'alg=: - per component', w)
+            vec_eq(ctx, key + '/neg', qn, [-x for x in p0], 'alg=: neg per component', w)
+            ctx.same(key + '/dot', dt, dot(p0, q1), 'alg=: dot', w)
+        elif k == 'iinv':
+            vec_eq(ctx, key + '/value', p.ret, [div(x, norm2(p0)) for x in conj(p0)], 'alg=: inverse = conjugate / |q|^2, each component divided once', w)
         elif k == 'conv':
             v = [sym('a1.' + c) for c in 'xyzw']; s = sym('a2'); u = v3('a3')
             a, b, c, d, e, f, g, h, i = p.ret
@@ -259,4 +276,4 @@ def run(ctx):
     if 'r_assoc_l' in assoc and 'r_assoc_r' in assoc:
         vec_eq(ctx, 'c05/assoc/l=r', assoc['r_assoc_l'], assoc['r_assoc_r'], 'alg≡: (p*q)*r = p*(q*r)', 'Quaternion::mul')
     ctx.floor('roots analysed', done, len(roots))
-    ctx.floor('obligations', ctx.obligations, 250)
+    if ctx.elem != 'i32': ctx.floor('obligations', ctx.obligations, 250)
